@@ -214,16 +214,30 @@ func one(raw json.RawMessage) interface{} {
 	}
 	if len(c.Runs) == 0 && c.Via == "cli" {
 		var ro RunObs
+		// every other command-line case is run from INSIDE the project (`coca analysis -p .`, or with no -p at all): the
+		// walked paths then begin with src/... and carry no directory in front
+		cwd, arg, prefix := scratch, []string{"analysis", "-p", rootName}, rootName
+		switch c.Layout % 4 {
+		case 1:
+			cwd, arg, prefix = root, []string{"analysis", "-p", "."}, ""
+		case 3:
+			cwd, arg, prefix = root, []string{"analysis"}, ""
+		}
 		read := func(name string) PassObs {
-			b, err := os.ReadFile(filepath.Join(scratch, "coca_reporter", name))
+			b, err := os.ReadFile(filepath.Join(cwd, "coca_reporter", name))
 			var nodes []core_domain.CodeDataStruct
 			if err != nil || json.Unmarshal(b, &nodes) != nil {
 				return PassObs{Panic: true, Types: []TypeObs{}, Note: "cannot read " + name}
 			}
-			return PassObs{Types: project(nodes, rootName)}
+			if prefix == "" {
+				for i := range nodes { // "./src/.." and "src/.." name the same file
+					nodes[i].FilePath = strings.TrimPrefix(filepath.ToSlash(nodes[i].FilePath), "./")
+				}
+			}
+			return PassObs{Types: project(nodes, prefix)}
 		}
-		cmd := exec.Command(os.Getenv("VERIF_COCA"), "analysis", "-p", rootName)
-		cmd.Dir = scratch
+		cmd := exec.Command(os.Getenv("VERIF_COCA"), arg...)
+		cmd.Dir = cwd
 		cmd.Env = append(os.Environ(), "TMPDIR="+scratch)
 		if out, err := cmd.CombinedOutput(); err != nil {
 			po := PassObs{Panic: true, Types: []TypeObs{}, Note: fmt.Sprint("coca analysis failed: ", err, " ", string(out))}
